@@ -124,7 +124,8 @@ def run(task, ctx):
     # cases that can make a decoder allocate beyond its input); 16-bit
     # sweeps are measured in thorough only
     kinds = ('rewrite', 'truncate', 'shapes', 'short', 'large',
-             'nested-short', 'siblings', 'shaped-nesting')
+             'nested-short', 'siblings', 'shaped-nesting', 'flag-words',
+             'scalar-limits')
     if ctx.tier == 'thorough':
         kinds += ('byte',)
     memory = task[0] in kinds and (ctx.tier == 'thorough' or len(task) < 4)
